@@ -7,9 +7,9 @@ set -u
 ID=$1; TGT=$2; RUNS=$3; PROCS=$4
 V=$(cd "$(dirname "$0")/.." && pwd); T=$V/target
 export CARGO_NET_OFFLINE=true RUST_BACKTRACE=0
-REPO=${VERIF_REPO:-/repo}; CFG=(); if [ "$REPO" != /repo ]; then T=$V/target/alt-$(echo "$REPO" | md5sum | cut -c1-8); CFG=(--config "paths=[\"$REPO/bitar\"]"); fi
+REPO=${VERIF_REPO:-/repo}; if [ "$REPO" != /repo ]; then T=$V/target/alt-$(echo "$REPO" | md5sum | cut -c1-8); mkdir -p $V/fuzz/.cargo; printf 'paths = ["%s/bitar"]\n' "$REPO" > $V/fuzz/.cargo/config.toml; else rm -f $V/fuzz/.cargo/config.toml; fi
 mkdir -p $T/fuzz_stats
-(cd $V/fuzz && [ -f Cargo.lock ] || cp $V/harness/Cargo.lock .; cargo +nightly fuzz build "${CFG[@]}" --fuzz-dir $V/fuzz --target-dir $T/fuzz >$T/build.log.fuzz 2>&1) || { echo "BUILD FAILURE (fuzz targets)"; grep -E "^error" -A8 $T/build.log.fuzz | head -40; exit 2; }
+(cd $V/fuzz && [ -f Cargo.lock ] || cp $V/harness/Cargo.lock .; cargo +nightly fuzz build --fuzz-dir $V/fuzz --target-dir $T/fuzz >$T/build.log.fuzz 2>&1) || { echo "BUILD FAILURE (fuzz targets)"; grep -E "^error" -A8 $T/build.log.fuzz | head -40; exit 2; }
 BIN=$T/fuzz/x86_64-unknown-linux-gnu/release/$TGT
 W=$T/fuzzwork/$ID; rm -rf $W; mkdir -p $W
 SEED=${VERIF_SEED:-1}
